@@ -21,13 +21,17 @@ import (
 
 const watchdog = 60 * time.Second // never a verdict: a trial that exceeds it is inconclusive
 
-type denyDev2 struct{}
+// denyDev2 is a per-RPC ACL of a legal but uncomparable shape (a struct value
+// holding a map): the server must never use it as a map key or compare it.
+type denyDev2 struct{ denied map[string]bool }
 
-func (denyDev2) Check(t string) bool { return t != "dev2" }
+func (d denyDev2) Check(t string) bool { return !d.denied[t] }
 
 type partialACL struct{}
 
-func (partialACL) NewRPCACL(context.Context) (subscribe.RPCACL, error) { return denyDev2{}, nil }
+func (partialACL) NewRPCACL(context.Context) (subscribe.RPCACL, error) {
+	return denyDev2{denied: map[string]bool{"dev2": true}}, nil
+}
 func (partialACL) Check(string, string) bool                           { return true }
 
 type subResult struct {
